@@ -30,7 +30,7 @@ theorem gen_tcpSignaturesMatch (s : Sig) (p : PSig) (d : Int) : Gen.tcpSignature
      simp only [qset_ofList_union, List.cons_append, List.nil_append, optInt_bne_wild, optInt_beq_wild, optInt_bne_cast,
        optBoolInt_bne_wild, optBoolInt_bne_bool, natCast_beq_ofNat, natCast_bne_ofNat, fmod_natCast, natCast_bne_zero,
        natCast_beq_cast, natCast_bne_cast, qxor_inter_left, qxor_inter_right, qinter_xor_left, qinter_xor_right]
-     grind)
+     grind (splits := 60))
 
 /-- **C01 against the source text**: `tcp_signatures_match` as printed from the working tree follows the
     declarative p0f matching rules, for every signature, packet signature and `max_dist`. -/
